@@ -201,3 +201,56 @@ PROPS = {
                         "Vec::push/extend append in order"],
     },
 }
+
+FIELD_MODEL = "hand models SwiftMT/Prim.lean + SwiftMT/Fields/*.lean of src/fields/swift_utils.rs, field_utils.rs and the modelled field*.rs parse / to_swift_string / serde shapes: modelled, not verified; tied by the `fields` correspondence stream (acceptance, serialisation and JSON component values on every generated content)"
+FIELD_SPEC = "harness/src/fieldspec.rs + fmt.rs: my reading of the documented format of all 114 field types (from the doc comments), used by the oracle; SwiftMT/Spec/FieldDocs.lean: the same documented formats as Lean predicates for the modelled types"
+FIELD_RULE = ("all 114 field types (89 structs, 25 option enums) x contents generated from the documented format: conforming contents at minimum / "
+              "maximum / random component lengths with every optional part present, absent and random; one-node violations (max+1, exact+-1, one "
+              "line too many, invalid date / time / offset / BIC / currency / amount); 32 string mutants per base content (appended, deleted, "
+              "replaced characters; extra, blank and CRLF lines; leading / trailing line breaks; lower case; tab; non-ASCII of 2, 3 and 4 "
+              "bytes; Arabic-Indic digit; slashes; duplication; empty) and random strings over a SWIFT and a non-SWIFT alphabet. "
+              "Non-trivial = documented or accepted; distinct = (field type, content). ")
+
+def n_field_models(gen):
+    return 0
+
+PROPS.update({
+    "C05": {
+        "streams": ["fields"],
+        "stream_args": {"fields": ["--prop", "C05", "--modelled", "@modelled"]},
+        "driver": True,
+        "extractors": [],
+        "instances": 0,
+        "rule": FIELD_RULE + "Oracle: the implementation accepts a content iff the independent matcher of the documented format does (for an option "
+                "enum's letter-less heuristic parse only over-acceptance is judged; C14 decides the letters). Modelled types are compared with the Lean model.",
+        "modelled": "field types with a Lean model: the registry of lean/SwiftMT/Fields/Registry.lean (asked from the compiled driver on every run; "
+                    "listed in the evidence); the remaining types are covered by the oracle only",
+        "trusted_base": [KERNEL, HARNESS, FIELD_MODEL, FIELD_SPEC],
+        "assumptions": ["field contents reach the parsers with LF as the only line separator (C01: the extraction kernel normalises CRLF)",
+                        "Char.isDigit / isUpper / isAlpha / isAlphanum of Lean core are the ASCII classes the Rust is_ascii_* predicates test"],
+    },
+    "C02": {
+        "streams": ["fields"],
+        "stream_args": {"fields": ["--prop", "C02", "--modelled", "@modelled"]},
+        "driver": True,
+        "extractors": [],
+        "instances": 0,
+        "rule": FIELD_RULE + "Oracle: every accepted content is serialised, re-parsed (an enum through the option letter it wrote) and must give an "
+                "equal value (JSON) and the same text again.",
+        "modelled": "as C05; the message-level statement (re-tokenising a serialised message gives the same fields) is proved over the C01 extraction model",
+        "trusted_base": [KERNEL, HARNESS, FIELD_MODEL, MODEL_KERNEL],
+        "assumptions": ["values are compared through serde_json::to_value (every component is serialised: no #[serde(skip)] in src/fields)"],
+    },
+    "C07": {
+        "streams": ["fields"],
+        "stream_args": {"fields": ["--prop", "C07", "--modelled", "@modelled"]},
+        "driver": True,
+        "extractors": [],
+        "instances": 0,
+        "rule": FIELD_RULE + "Oracle: no content makes any of the 114 parsers (or the serialiser / serde codecs of the value it returns) panic "
+                "(catch_unwind per case).",
+        "modelled": "panic-aware models (explicit `panic` outcome for byte slicing off a character boundary / unwrap on None) of the modelled field types",
+        "trusted_base": [KERNEL, HARNESS, FIELD_MODEL],
+        "assumptions": ["time and memory bounds, allocator aborts and stack depth are outside the model (labelled partial)"],
+    },
+})
